@@ -9,7 +9,74 @@ import (
 // an index or copied into is tracked as a mutable array (arr, off, len, cap over E|uint8); all other
 // byte slices are immutable sequences.
 func (fr *Frame) findMutable() {
-	fr.mutSet = map[ssa.Value]bool{}
+	fr.mutSet = mutableValues(fr.fn)
+}
+
+// mutableParams: indices of []byte parameters the function writes through
+func mutableParams(fn *ssa.Function) map[int]bool {
+	ms := mutableValues(fn)
+	out := map[int]bool{}
+	for i, p := range fn.Params {
+		if ms[p] {
+			out[i] = true
+		}
+	}
+	return out
+}
+
+var mutCache = map[*ssa.Function]map[ssa.Value]bool{}
+
+func mutableValues(fn *ssa.Function) map[ssa.Value]bool {
+	if m, ok := mutCache[fn]; ok {
+		return m
+	}
+	res := map[ssa.Value]bool{}
+	mutCache[fn] = res
+	fr := &Frame{fn: fn, mutSet: res}
+	var roots []ssa.Value
+	for _, p := range fn.Params {
+		if isByteSlice(p.Type()) {
+			roots = append(roots, p)
+		}
+	}
+	for _, ms := range roots {
+		group := map[ssa.Value]bool{ms: true}
+		work := []ssa.Value{ms}
+		written := false
+		for len(work) > 0 {
+			v := work[len(work)-1]
+			work = work[:len(work)-1]
+			for _, r := range *v.Referrers() {
+				switch x := r.(type) {
+				case *ssa.Slice:
+					if x.X == v && !group[x] {
+						group[x] = true
+						work = append(work, x)
+					}
+				case *ssa.IndexAddr:
+					if x.X == v {
+						for _, rr := range *x.Referrers() {
+							if s, ok := rr.(*ssa.Store); ok && s.Addr == x {
+								written = true
+							}
+						}
+					}
+				case *ssa.Call:
+					if bi, ok := x.Call.Value.(*ssa.Builtin); ok && bi.Name() == "copy" && x.Call.Args[0] == v {
+						written = true
+					}
+					if passedToWriter(x, v) {
+						written = true
+					}
+				}
+			}
+		}
+		if written {
+			for v := range group {
+				res[v] = true
+			}
+		}
+	}
 	for _, b := range fr.fn.Blocks {
 		for _, in := range b.Instrs {
 			var ms ssa.Value
@@ -55,6 +122,9 @@ func (fr *Frame) findMutable() {
 						if bi, ok := x.Call.Value.(*ssa.Builtin); ok && bi.Name() == "copy" && x.Call.Args[0] == v {
 							written = true
 						}
+						if passedToWriter(x, v) {
+							written = true
+						}
 					}
 				}
 			}
@@ -65,4 +135,20 @@ func (fr *Frame) findMutable() {
 			}
 		}
 	}
+	return res
+}
+
+// passedToWriter: v is an argument of a static in-repo call whose parameter is written by the callee
+func passedToWriter(c *ssa.Call, v ssa.Value) bool {
+	sc := c.Call.StaticCallee()
+	if sc == nil || len(sc.Blocks) == 0 || !inRepo(sc) {
+		return false
+	}
+	mp := mutableParams(sc)
+	for i, a := range c.Call.Args {
+		if a == v && mp[i] {
+			return true
+		}
+	}
+	return false
 }
